@@ -375,7 +375,8 @@ class Shelxfile():
         includefiles.append(include_filename.name)
         try:
             newfile = include_filename.read_text().splitlines(keepends=False)
-        except IOError as e:
+        except (IOError, UnicodeDecodeError) as e:
+            # (read_file() treats a main file that is not text the same way)
             if self.debug or self.verbose:
                 print(e)
                 print(f'*** CANNOT OPEN NESTED INPUT FILE {include_filename} ***')
